@@ -51,6 +51,11 @@ def gen(rng, tier):
         hdrs = list(req["headers"])
         if rng.random() < 0.5:
             hdrs.append((b"Content-Type" if version != "2" else b"content-type", rng.choice([b"text/plain", b"application/json; charset=utf-8"])))
+        if rng.random() < 0.3:
+            # other Content-* headers are ordinary headers for PEP 3333: HTTP_CONTENT_ENCODING, not CONTENT_ENCODING
+            for nm_, v_ in rng.sample([(b"Content-Encoding", b"gzip"), (b"Content-Language", b"en"), (b"Content-Language", b"de"),
+                                       (b"Content-Disposition", b"attachment"), (b"Content-Range", b"bytes 0-1/2"), (b"Content-MD5", b"abc=")], rng.choice([1, 2, 3])):
+                hdrs.append((nm_ if version != "2" else nm_.lower(), v_))
         if rng.random() < 0.4:
             nm = b"X-Dup" if version != "2" else b"x-dup"
             hdrs += [(nm, b"one"), (nm, b"two")]
